@@ -22,7 +22,8 @@ PROFILES = {
     'lifecycle': dict(BASE, wReset=3, wExitEnter=4, wRecreate=25, pGuardCancel=100, pGuardIssue=80),
     'guards':    dict(BASE, pGuardCancel=160, pGuardIssue=260, pIssue=40, maxBatch=2),
     'guards-lo': dict(BASE, pGuardCancel=40, pGuardIssue=400, pIssue=20, maxBatch=1),
-    'history':   dict(BASE, pGuardCancel=100, pGuardIssue=150, wReset=1, wExitEnter=1),
+    'history':   dict(BASE, pGuardCancel=100, pGuardIssue=150, wReset=1, wExitEnter=1, replica=1),
+    'replica':   dict(BASE, pGuardCancel=60, pGuardIssue=40, pIssue=20, maxBatch=2, replica=1, kinds=0x4f),
     'payload':   dict(BASE, pGuardCancel=60, pGuardIssue=100, pIssue=80, maxBatch=4),
 }
 
@@ -33,7 +34,7 @@ SHAPE_PROPS = {
     'C03': dict(profiles=['lifecycle', 'mixed'], title='lifecycle callbacks'),
     'C04': dict(profiles=['guards', 'guards-lo'], title='guards / veto / rounds'),
     'C11x': dict(profiles=['mixed'], title='asserts (temporary)'),
-    'C09': dict(profiles=['history', 'single'], title='history'),
+    'C09': dict(profiles=['history', 'replica', 'single'], title='history'),
     'C13': dict(profiles=['single', 'mixed'], title='queries'),
     'C14': dict(profiles=['payload'], title='payloads'),
 }
